@@ -763,8 +763,54 @@ func (h *ttlHook) tick() {
 	}
 }
 
+// rcStaleFamily: the key holds a record that is PAST the expiry written in it but still present on the server (a
+// write whose expiry was already over gets Redis' minimum TTL; clock skew between clients does the same).  Client
+// A's Create runs into it; client B's Put (no expiry) lands after A's k-th Redis command (every k).  B's Put is
+// the last write in every legal order — if A's Create won, it did so while the key was (by contract) free, i.e.
+// before B's Put — so afterwards the key must hold B's record.
+func rcStaleFamily(ctx *Ctx) {
+	bg := context.Background()
+	for after := 1; after <= 4; after++ {
+		mr, err := miniredis.Run()
+		if err != nil {
+			return
+		}
+		a := kredis.New(&goredis.Options{Addr: mr.Addr()})
+		b := kredis.New(&goredis.Options{Addr: mr.Addr()})
+		ctx.R.Case("stale", after, 0)
+		ctx.R.Nontrivial("a Create meets a record past its written expiry but still on the server, a Put lands inside it")
+		past := time.Now().Add(-time.Second)
+		b.Put(bg, kvs.Record{Key: "k", Value: []byte("stale"), ExpiresAt: &past})
+		var bVer string
+		h := &ttlHook{after: after}
+		h.fire = func() {
+			if r, err := b.Put(bg, kvs.Record{Key: "k", Value: []byte("B")}); err == nil {
+				bVer = r.Version
+			}
+		}
+		kredis.VerifAddHook(a, h)
+		ctx.R.Enter()
+		aVer, aerr := a.Create(bg, kvs.Record{Key: "k", Value: []byte("A")})
+		ctx.R.Leave()
+		ctx.R.Op(fmt.Sprintf("create-vs-put-on-stale after=%d", after), "ok")
+		if bVer != "" {
+			cur, gerr := b.Get(bg, "k")
+			switch {
+			case gerr != nil:
+				ctx.R.Quiet("mon C02-linearizable", fmt.Sprintf("client B's Put of key k succeeded inside client A's Create (A: err=%v) and nobody called Delete, yet the key is absent afterwards: %v", aerr, gerr))
+			case cur.Version != bVer:
+				ctx.R.Quiet("mon C02-linearizable", fmt.Sprintf("client B's Put (version %s) landed after command %d of client A's Create (A: version %q err=%v); it is the last write in every legal order, yet the key now holds value %q version %s: B's successful write was lost", bVer, after, aVer, aerr, cur.Value, cur.Version))
+			}
+		}
+		a.(interface{ Close() error }).Close()
+		b.(interface{ Close() error }).Close()
+		mr.Close()
+	}
+}
+
 func runRedisTTL(ctx *Ctx) {
 	bg := context.Background()
+	rcStaleFamily(ctx)
 	for _, other := range []string{"put", "delete-create", "cas"} {
 		for after := 1; after <= 4; after++ {
 			for _, order := range [][]int{{0, 1}, {1, 0}} {
